@@ -212,9 +212,9 @@ func (t *TLS) Payload() []byte {
 // SerializationBuffer, implementing gopacket.SerializableLayer.
 func (t *TLS) SerializeTo(b gopacket.SerializeBuffer, opts gopacket.SerializeOptions) error {
 	totalLength := 0
-	for _, record := range t.ChangeCipherSpec {
+	for i := range t.ChangeCipherSpec {
 		if opts.FixLengths {
-			record.Length = 1
+			t.ChangeCipherSpec[i].Length = 1
 		}
 		totalLength += 5 + 1 // length of header + record
 	}
@@ -222,13 +222,15 @@ func (t *TLS) SerializeTo(b gopacket.SerializeBuffer, opts gopacket.SerializeOpt
 		totalLength += 5
 		// TODO
 	}
-	for _, record := range t.AppData {
+	for i := range t.AppData {
+		record := &t.AppData[i]
 		if opts.FixLengths {
 			record.Length = uint16(len(record.Payload))
 		}
 		totalLength += 5 + len(record.Payload)
 	}
-	for _, record := range t.Alert {
+	for i := range t.Alert {
+		record := &t.Alert[i]
 		if len(record.EncryptedMsg) == 0 {
 			if opts.FixLengths {
 				record.Length = 2
